@@ -44,7 +44,7 @@ def _unit(name, define, props, functions, extra=None):
 
 JOBS += [
     _unit("check_badsalt_chars", "U_badsalt", ["C05", "C10", "C18"], ["check_badsalt_chars"], {"loops": [BADSALT_LOOP]}),
-    _unit("get_hashfn", "U_hashfn", ["C05", "C07", "C18", "C19"], ["get_hashfn", "is_des_salt_char"]),
+    _unit("get_hashfn", "U_hashfn", ["C05", "C07", "C10", "C18", "C19"], ["get_hashfn", "is_des_salt_char"]),
     _unit("hash_table", "U_table", ["C10", "C12", "C18", "C19"], ["hash_algorithms (table)"]),
     _unit("get_internal", "U_get_internal", ["C04", "C07"], ["get_internal"],
           {"cases": [("r%d" % k, None, ["DATA_OFF=%d" % (16 + k)]) for k in range(16)],
